@@ -68,3 +68,36 @@ func classifyTag(s []int, i, v int) int {
 	}
 	return 30
 }
+
+// rejected: a state-passing call in the right operand of &&
+func badCond(n int) []int {
+	d := make([]int, n)
+	if n > 1 && fill(d, 1) > 0 {
+		return d
+	}
+	return d
+}
+
+// a state-passing call in a loop condition: the written slice is loop state
+func condLoop(n int) []int {
+	d := make([]int, n)
+	k := 0
+	for bump(d, k) < 3 {
+		k++
+	}
+	return d
+}
+
+func bump(d []int, k int) int {
+	d[0] += k
+	return d[0]
+}
+
+func (c *cnt) adopt(v []int) { c.vals = v; c.n = len(v) }
+
+// rejected: the local is written after a receiver-writing method may have kept it
+func (c *cnt) badKeep(k int) {
+	d := make([]int, k)
+	c.adopt(d)
+	d[0] = 7
+}
